@@ -41,7 +41,7 @@ def parse_name(s):
 
 class C07(Prop):
     id = 'C07'
-    budgets = {'quick': 30000, 'thorough': 600000}
+    budgets = {'quick': 80000, 'thorough': 1200000}
     time_limit = {'quick': 40, 'thorough': 480}
     rule = ('45% describe inputs (value-directed matcher expressions of C06 incl. MatchesPredicate leaves with well- and '
             'ill-formed messages, x annotated x verbose), 35% text_repr inputs (str and bytes over an adversarial alphabet: '
@@ -252,7 +252,9 @@ class C07(Prop):
     def gen_text(self, rng, small=False):
         is_bytes = rng.random() < 0.3
         n = rng.choice([0, 1, 2, 3, 3, 4, 5, 6, 8])
-        if is_bytes:
+        if rng.random() < 0.3:      # quote-heavy: runs of quotes next to backslashes and line ends
+            s = [rng.choice([39, 39, 39, 39, 92, 10, 34, 97]) for _ in range(n)]
+        elif is_bytes:
             s = [rng.choice(BYTE_ALPHABET) if rng.random() < 0.85 else rng.randrange(256) for _ in range(n)]
         else:
             s = [ord(rng.choice(ALPHABET)) if rng.random() < 0.85 else rng.choice([rng.randrange(0x80), rng.randrange(0x3000), rng.randrange(0x110000)])
